@@ -45,7 +45,7 @@ CHECKS = {
    text='Comparison records (< = > <= >=, binary and variadic, min max zero? positive? negative?) over the C08 palette extended with doubles (near 2^53 and 2^63, +-0.0, subnormals, infinities, neighbours of exact values) in every representation; TLC decides each truth value from the exact mathematical values, so trichotomy, consistency, transitivity and the variadic rule are consequences checked per record.',
    note='NaN excluded. min/max judged by value only.', ref='5 C09'),
  'C12': dict(cat='model_checking', tech='exhaustive TLC model check of the collector model MarwoodGC + trace validation of heap snapshots and capacity events against GCPreds',
-   text='MarwoodGC.tla (cells Free/Allocated/Used, free list, intern table, roots, 1.5x growth policy, stop-the-world mark with worklist and sweep) is model checked exhaustively for small heaps: Safety, Exactness after sweep, FreeListOK, InternOK, MarksReset, marking terminates. The same predicates (GCPreds.tla) validate snapshots taken before marking and after sweeping at natural and forced collections of the real VM: exactly the allocated cells reachable from the roots survive, survivors unchanged, free list = free cells without duplicates, intern table = symbol cells. Garbage loops (14 allocation kinds, among them continuation chains handed on by the receiver, delay-force chains, top-level forms with fresh local names and bulk-builtin bursts, x live sizes 0/10/1000/4000 - the last beyond one 8192-cell chunk - x n and 10n iterations) must follow the growth policy, end with capacity(10n) = capacity(n) and stay under the bound derived from the live data.',
+   text='MarwoodGC.tla (cells Free/Allocated/Used, free list, intern table, roots, 1.5x growth policy, stop-the-world mark with worklist and sweep) is model checked exhaustively for small heaps: Safety, Exactness after sweep, FreeListOK, InternOK, MarksReset, marking terminates. The same predicates (GCPreds.tla) validate snapshots taken before marking and after sweeping at natural and forced collections of the real VM: exactly the allocated cells reachable from the roots survive, survivors unchanged, free list = free cells without duplicates, intern table = symbol cells. Garbage loops (16 allocation kinds, among them loops driven in slices, continuation chains handed on by the receiver, delay-force chains, top-level forms with fresh local names and bulk-builtin bursts, x live sizes 0/10/1000/4000 - the last beyond one 8192-cell chunk - x n and 10n iterations) must follow the growth policy, end with capacity(10n) = capacity(n) and stay under the bound derived from the live data.',
    note='The projection of raw cells to out-edges and roots (harness/src/snap.rs) is trusted; it is written from the meaning of the cell kinds, not from heap.rs. The abstract model is checked for heaps of at most 3 cells (quick) / with liveness (thorough).', ref='5 C12'),
  'C16': dict(cat='model_checking', tech='trace validation of number<->string records against NumTower (digit strings and rounding intervals specified in TLA+) with TLC',
    text='Records (z, radix, number->string, string->number of it, the prefixed source literal) over the C08/C09 palettes, random fixnums, bignums, rationals at radix 2/8/10/16 and finite doubles by bit pattern at radix 10. TLC checks the read-back equals z with the same exactness, the literal denotes the same value, and - independently of the reader - that the printed digits denote z (Horner value for exact numbers, rounding interval for doubles).',
@@ -55,14 +55,14 @@ CHECKS = {
    note='The statement asks for length 8 exhaustively (11^8 texts): out of reach; the bound reached is in the evidence. Where the statement is ambiguous (cursor on a non-bracket token directly after a bracket) both readings are accepted.', ref='5 C20'),
 
  'C14': dict(cat='model_checking', tech='replay of TLC-generated behaviours of Store.tla (pool of objects with identity, library specified in Prims.tla) on the real VM',
-   text='Store.tla is a state machine over a heap of objects with identity and a pool of four named values; each step applies one list/vector procedure of the statement (specified in Prims.tla from R7RS) to arguments drawn from the pool, index ranges -1..len+1 and 100, and keys. TLC enumerates every operation with every argument combination on four initial pools (exhaustive for one step; frame condition and type invariant checked on the spec) and simulates sequences of length 12; each behaviour carries the required outcome (value / error / unspecified), the rendering of all pool objects and the identity matrix (which pool objects are the same object or a tail of which) after every step, and the harness replays it on the real VM comparing result, all four objects and the identity matrix (read from the heap pointers of the VM) after each step.',
+   text='Store.tla is a state machine over a heap of objects with identity and a pool of four named values; each step applies one list/vector procedure of the statement (specified in Prims.tla from R7RS) to arguments drawn from the pool, index ranges -1..len+1 and 100, and keys. TLC enumerates every operation with every argument combination on five initial pools (exhaustive for one step; frame condition and type invariant checked on the spec) and simulates sequences of length 12; each behaviour carries the required outcome (value / error / unspecified), the rendering of all pool objects and the identity matrix (which pool objects are the same object or a tail of which) after every step, and the harness replays it on the real VM comparing result, all four objects and the identity matrix (read from the heap pointers of the VM) after each step.',
    note='Identity is observed through mutation visibility and through the heap pointers of the pool slots (verif accessors), never through eq? on pairs: the pinned suite fixes (eq? (cons a b) (cons a b)) => #t. Mutations that would create cycles are not generated. Exhaustive for single operations only; sequences are sampled (3000 quick / 150000 thorough).', ref='5 C14'),
  'C15': dict(cat='model_checking', tech='replay of TLC-generated behaviours of Strings.tla (strings as mutable vectors of Unicode scalar values, character table CharTable.tla) on the real VM',
    text='Strings.tla: pool of strings mixing 1-4 byte characters (and the lists/vectors the conversions produce); each step applies one string or character procedure of the statement with start/end/index from -1..len+1, characters from a 17-character palette of every UTF-8 width, integers across the surrogate gap and above U+10FFFF, and wrong-typed arguments. TLC enumerates all single operations on three pools (15.8k behaviours; invariants: only scalar values in strings, mutators keep lengths, frame condition) and simulates sequences of length 10; the harness replays them comparing result and every pool object after each step.',
    note='Case mapping and character classes from the explicit table CharTable.tla (ASCII + palette, taken from the Unicode data files); U+00DF and characters outside the table: any outcome accepted.', ref='5 C15'),
 
- 'C06': dict(cat='exploration', tech='replay of TLC-generated call descriptors from Builtins.tla (signature table over a 34-value palette) on the real VM with crash/hang isolation; trace validation of text entry points (Trace_API)',
-   text='Builtins.tla holds the signature table of the global procedures and a palette of 34 values of every kind with boundary values (incl. zeros left in rational and bignum representation by cancelling arithmetic, circular list, self-containing vector, i64 extremes, bignum, rationals, inf, NaN, -0.0, procedures, continuation, macro value, unspecified value). TLC enumerates the calls (all procedures x arities 0 and 1 completely, arity 2 by stride or completely, arities 3-5 by stride); the harness executes each call in a real VM, attributes a crash or hang of the process to the call in flight, renders every error and value as text, and evaluates a probe afterwards. Generated texts (random Unicode, token soup, mutated programs, nesting to 64) go through scan, parse, eval_text and sliced evaluation and TLC (Trace_API) rejects any outcome other than a value or an error.',
+ 'C06': dict(cat='exploration', tech='replay of TLC-generated call descriptors from Builtins.tla (signature table over a 38-value palette) on the real VM with crash/hang isolation; trace validation of text entry points (Trace_API)',
+   text='Builtins.tla holds the signature table of the global procedures and a palette of 38 values of every kind with boundary values (incl. zeros left in rational and bignum representation by cancelling arithmetic, data holding procedures, macro values and continuations, circular list, self-containing vector, i64 extremes, bignum, rationals, inf, NaN, -0.0, procedures, continuation, macro value, unspecified value). TLC enumerates the calls (all procedures x arities 0 and 1 completely, arity 2 by stride or completely, arities 3-5 by stride); the harness executes each call in a real VM, attributes a crash or hang of the process to the call in flight, renders every error and value as text, and evaluates a probe afterwards. Generated texts (random Unicode, token soup, mutated programs, nesting to 64) go through scan, parse, eval_text and sliced evaluation and TLC (Trace_API) rejects any outcome other than a value or an error.',
    note='C06 demands only value-or-error; what R7RS prescribes for each call is emitted too and counted, not enforced. Allocation sizes and exponents beyond 10^6 are outside the property. Two open known findings (cyclic data).', ref='5 C06'),
  'C10': dict(cat='exploration', tech='trace validation of write/read/eval records against Codec.tla (write injective, read its left inverse, write stable, quote-eval identity) with TLC',
    text='Codec.tla states what a printer/reader pair satisfies with the text as an opaque token. The harness generates data (all kinds, finite doubles by bit pattern, integers across the fixnum/bignum boundary, rationals, all Unicode classes in characters and strings, reader-produced symbols, containers to depth 6), records write(d), read of that text, write again and the evaluation of (quote d); TLC checks every record structurally (numbers by value and exactness) and the injectivity of write on records sorted by text.',
